@@ -14,8 +14,10 @@ KEYS = ["", "/", "~", "~0", "~1", "~01", "~10", "%", "%25", "%2F", "#", "?", " "
         "é/~", "&=", "[0]", "ü%zz"]
 keys = st.sampled_from(KEYS)
 leaf = st.one_of(st.none(), st.booleans(), st.integers(-2, 9), st.sampled_from(["", "s", "abc", "0"]))
-docs = st.recursive(leaf, lambda c: st.one_of(st.lists(c, max_size=4), st.dictionaries(keys, c, max_size=4)),
-                    max_leaves=12)
+docs = st.recursive(leaf, lambda c: st.one_of(st.lists(c, max_size=4), st.dictionaries(keys, c, max_size=4),
+                                            # arrays with two-digit indices, objects with many members
+                                            st.lists(c, min_size=10, max_size=24), st.dictionaries(keys, c, min_size=9, max_size=16)),
+                    max_leaves=20)
 BAD_INDEX = ["-", "-1", "01", "+1", " 1", "1 ", "1\n", "0\n", "\n1", "1\r", "1\t", "1_0", "1.0", "１", "", "a", "0x1", "1e0", "٠", "00",
              "9" * 25, "1" + "0" * 5000, "9" * 4301]
 OPTIONAL = list("~!$&'()*+,;=:@/?-._") + list("abAB019")
@@ -82,7 +84,7 @@ def walk_tokens(doc, tokens):
 
 class C14(Prop):
     ID = "C14"
-    QUICK = 3500
+    QUICK = 1800
     THOROUGH = 30000
     RULE = ("case = (JSON document with hostile keys, a set of optionally percent-encoded characters, 1-4 negative "
             "pointers).  Positive half: for EVERY location of the document the pointer is encoded (RFC 6901 escaping, "
@@ -148,6 +150,29 @@ class C14(Prop):
             if again is not node:
                 res.fail(("positive-again", "wrong-value"), "second resolution of fragment %r (path %r) returned %s, expected %s" % (
                     frag, list(tokens), impl.cj(again)[:100], impl.cj(node)[:100]))
+        # ... and the same resolver object asked about OTHER, short-lived documents in between (each a modified copy):
+        # what a fragment designates depends on the document handed in, not on anything seen before
+        def variant(v, n):
+            if isinstance(v, dict):
+                return dict((k, variant(e, n)) for k, e in v.items())
+            if isinstance(v, list):
+                return [variant(e, n) for e in v]
+            return "variant-%d" % n if isinstance(v, str) else (n if v is None else v)
+        frags = [(tokens, optr.encode(list(tokens), also)) for tokens, _ in locations(doc)][:12]
+        for n in range(3):
+            tmp = variant(doc, n)
+            for tokens, frag in frags:
+                try:
+                    want = optr.evaluate(tmp, list(tokens))
+                    got = resolver.resolve_fragment(tmp, frag)
+                except Exception as e:
+                    res.fail(("other-document", "raises", impl.tname(e)), "fragment %r on a modified copy raised %r" % (frag, e))
+                    break
+                if got is not want:
+                    res.fail(("other-document", "wrong-value"), "fragment %r on modified copy %d returned %s, that copy has %s there" % (
+                        frag, n, impl.cj(got)[:80], impl.cj(want)[:80]))
+                    break
+            del tmp
         # end-to-end: a schema document whose definitions are the drawn document's subschema-like members
         d = case.get("draft", 7)
         if d != 3:
